@@ -7,6 +7,7 @@ R29.1 spawn_closure_effects: for every closure handed to std::thread::spawn in p
       cannot know that a newer version exists, so some interleaving publishes stale diagnostics last.
 R29.2 who_may_publish: PublishDiagnostics notifications are built only in the notify_* helpers; those are called
       only from the document handlers and from the spawn closure (inventory, floor-checked).
+R29.4 full-text sync: the change applied from a didChange is contentChanges.last() (or all entries in order).
 """
 import re
 
@@ -145,3 +146,43 @@ def check(ctx):
                           "the published version is the `version` field of the notification parameters",
                           "%s publishes a version that is not the notification's version field" % short(c.path),
                           where(b, c.line))
+    r29_4(ctx, facts)
+
+
+def r29_4(ctx, facts):
+    """R29.4 (added after seed C29-b) the server uses full-text synchronisation: every entry of `contentChanges` is a complete
+    replacement text and the LSP defines the *last* entry as the document's resulting state.  In apply_changes the change
+    handed to apply_change is `content_changes.last()`, or every change is applied in order by a forward loop over the slice;
+    `first()`, an index, or a reversed / truncated iteration analyses a text the client has already replaced."""
+    from .. import cfg
+    from ..dataflow import operand_term
+    AC = "parol_ls::server::Server::apply_changes"
+    b = facts.body(AC)
+    sites = [c for c in b.calls() if c.path == "parol_ls::server::Server::apply_change"]
+    if not sites:
+        raise AnchorMissing("apply_changes does not call apply_change")
+    for c in sites:
+        t = operand_term(b, c.args[2]) if len(c.args) > 2 else ("unknown",)
+        chain = []
+        hops = 0
+        while hops < 8:
+            if t[0] == "proj":
+                t = t[1]
+                continue
+            if t[0] == "call":
+                chain.append((t[1].path or "").split("::")[-1])
+                t = operand_term(b, t[1].args[0]) if t[1].args else ("unknown",)
+                hops += 1
+                continue
+            break
+        from_param = t[0] == "path" and t[1] == 3
+        ok = from_param and chain[:1] == ["last"]
+        if not ok and from_param and "next" in chain:
+            # loop form: iterator over the whole slice, forward
+            ok = not ({"rev", "take", "skip", "step_by", "filter", "nth", "take_while", "skip_while"} & set(chain))
+        ctx.check(ok, "R29.4", "apply_changes|last-content-change-wins",
+                  "the applied change is content_changes.last() (or all changes in order)",
+                  "apply_changes applies %s of the notification's contentChanges instead of the last one: with full-text sync "
+                  "the last entry is the document's state, the diagnostics published for this version describe a text the "
+                  "client has replaced" % (".".join(reversed(chain)) + "()" if chain else "an entry that is not derived from last()"),
+                  where(b, c.line))
